@@ -875,7 +875,8 @@ def run_c20(t):
 # ------------------------------------------------------------------ C17
 BAD_CLASSES = ["len_mismatch", "nonfinite", "nonbinary_ts", "ctx_presence", "ctx_rows", "ctx_width", "add_dup", "add_none", "add_nan",
                "add_inf", "rem_unknown", "warm_nondict", "warm_q_int", "warm_q_range", "warm_keys", "too_few_rows", "bad_types",
-               "predict_ctx_presence", "ctx_1d", "predict_ctx_width", "add_unhashable", "rem_last"]
+               "predict_ctx_presence", "ctx_1d", "predict_ctx_width", "add_unhashable", "rem_last",
+               "decisions_2d", "ctx_strings", "predict_ctx_strings"]
 
 def history_dims(base, upto):
     d = None; arms = list(base["arms"]); fitted = False; nrows = 0
@@ -901,7 +902,7 @@ def gen_c17(rng, tier):
     if npk == "clusters" and z < 0.4:
         cls = "too_few_rows"
     elif (npk != "none" or base["lp"][0] in gen.LIN_KINDS) and z < 0.55:
-        cls = rng.choice(["ctx_width", "ctx_rows", "predict_ctx_presence", "ctx_presence", "predict_ctx_width"])
+        cls = rng.choice(["ctx_width", "ctx_rows", "predict_ctx_presence", "ctx_presence", "predict_ctx_width", "ctx_strings", "predict_ctx_strings", "decisions_2d"])
     elif base["lp"][0] == "thompson" and base["lp"][1] is None and z < 0.7:
         cls = "nonbinary_ts"
     if rng.random() < 0.05:
@@ -986,6 +987,18 @@ def bad_call(mab, label, inv, base, cls, rng, d, arms, fitted, all_arms=False):
         elif cls == "add_unhashable":
             # an arm of a type that cannot be a dictionary key (a list, a dict): the policies raise when they file it
             mab.add_arm(rng.choice([[3, 4], {"a": 1}, [label(97)]]))
+        elif cls == "decisions_2d":
+            # decisions (and rewards) as an (n, 1) column, as from df[['arm']].values
+            meth(np.asarray(ds, dtype=object).reshape(-1, 1) if any(isinstance(x, str) for x in ds) else np.asarray(ds).reshape(-1, 1),
+                 np.asarray(rs, dtype=float) if rng.random() < 0.5 else np.asarray(rs, dtype=float).reshape(-1, 1), cx)
+        elif cls == "ctx_strings":
+            # contexts that are not numbers
+            if not contextual: return "n/a"
+            meth(ds, rs, [[str(v) + "x" for v in row] for row in cx])
+        elif cls == "predict_ctx_strings":
+            if not (contextual and fitted and d): return "n/a"
+            q = [["a%d" % j for j in range(d)] for _ in range(rng.randint(1, 3))]
+            (mab.predict if rng.random() < 0.5 else mab.predict_expectations)(q)
         elif cls == "rem_last":
             # removing the only arm: accepted by most policies (a bandit without arms), but a policy that renormalises or
             # takes a maximum over its arms must not raise half-way
@@ -1641,7 +1654,7 @@ def snapshot(obj):
         return ("list", [snapshot(v) for v in obj])
     return ("val", repr(obj))
 
-CONTAINERS = ["list", "np_c", "np_f", "np_int", "series", "frame", "view", "np_small", "frame_mixed", "np_f32"]
+CONTAINERS = ["list", "np_c", "np_f", "np_int", "series", "frame", "view", "np_small", "frame_mixed", "np_f32", "np_i32"]
 
 def to_container(vals, kind, is_matrix=False, integral=False):
     import pandas as pd
@@ -1656,6 +1669,9 @@ def to_container(vals, kind, is_matrix=False, integral=False):
         return np.asfortranarray(a) if is_matrix else a.copy()
     if kind == "np_int":
         return a.astype(np.int64) if integral and a.dtype.kind == "f" and np.all(a == np.round(a)) else a.copy()
+    if kind == "np_i32":
+        # 4-byte integers: sums of products of values in the thousands leave the type's range after some tens of rows
+        return a.astype(np.int32) if integral and a.dtype.kind == "f" and a.size and np.all(a == np.round(a)) and np.abs(a).max() < 2**31 else a.copy()
     if kind == "np_f32":
         # single precision: the generated values (small integers, dyadic fractions) are exactly representable, so the SAME numbers
         # arrive; sums accumulated in the data's dtype would round differently
@@ -1740,7 +1756,7 @@ def gen_c18_small_ints(rng):
     d = rng.randint(1, 3)
     arms = rng.sample(range(1, 9), 2)
     lp = (kind, 0.0 if kind == "lingreedy" else 0.5, rng.choice([0.5, 1.0, 2.0]), rng.random() < 0.3, True)
-    hi = rng.choice([1, 9, 20])
+    hi = rng.choice([1, 9, 20, 4000, 30000])
     rc = lambda n: [[float(rng.randint(0, hi)) for _ in range(d)] for _ in range(n)]
     n0 = rng.randint(20, 40)
     ops = [("fit", [rng.choice(arms) for _ in range(n0)], [float(rng.randint(0, 9)) for _ in range(n0)], rc(n0)), ("pexp", rc(3))]
@@ -1748,7 +1764,7 @@ def gen_c18_small_ints(rng):
     ops += [("pfit", [rng.choice(arms) for _ in range(n1)], [float(rng.randint(0, 9)) for _ in range(n1)], rc(n1)), ("pexp", rc(2)), ("pred", rc(2))]
     npol = rng.choice([None, None, ("knearest", 3, "euclidean")])
     base = {"arms": arms, "lp": lp, "np": npol, "seed": rng.randint(0, 10**6), "ops": ops, "label": "int", "mode": "tol", "reward_style": "smallint"}
-    return {"base": base, "kind": rng.choice(["np_small", "frame_mixed"])}
+    return {"base": base, "kind": "np_i32" if hi > 255 else rng.choice(["np_small", "frame_mixed"])}
 
 def gen_c18(rng, tier):
     z0 = rng.random()
